@@ -273,7 +273,7 @@ theorem abel_tail (ind : Int → Bool) (t : Int → Rat) (x : Rat) (n N : Nat) (
     intro j hj
     rw [tailS_split ind t x n (M+1) j (mem_range.mp hj)]
     ring
-  rw [Finset.sum_congr rfl e, sum_by_parts c (fun j => tailS ind t x n (M+1) j) M,
+  rw [Finset.sum_congr rfl e, mono_sum_by_parts c (fun j => tailS ind t x n (M+1) j) M,
     tailS_ge ind t x n (M+1) (M+1) (le_refl _), Nat.add_sub_cancel]
   ring
 
